@@ -76,7 +76,7 @@ def close(e, g):
 L_FIXED = {"free-text-negation", "negation-over-sparse-field", "numeric-string-value-numeric-literal",
            "number-and-text-share-column", "int-value-decimal-literal", "by-field-sparse", "measure-field-sparse",
            "measure-field-absent-from-dataset", "pq-ingest-negated-term", "pq-ingest-record-without-query-columns",
-           "negated-numeric-term", "where-quoted-number-not-canonical"}
+           "negated-numeric-term", "where-quoted-number-not-canonical", "dc-over-numeric-text"}
 
 
 def cls_sig(kind, cls):
@@ -468,7 +468,15 @@ def compare(impl, model):
         for q in [x for x in ld.split(",") if x]:
             cls = ""
             if q.isdigit() and int(q) < len(msegs):
-                cls = seg_parse(msegs[int(q)]).get("cls", "")
+                mq = seg_parse(msegs[int(q)])
+                cls = mq.get("cls", "")
+                # a stats row made of nothing but distinct counts over columns mixing numbers and numeric text (labels
+                # grant:dcmixed:<f>): the recorded class e2e/stats/dc-over-numbers-and-numeric-text is a layout dependence by itself
+                dcnum = set("dc." + c[len("grant:dcmixed:"):] for c in cls.split(",") if c.startswith("grant:dcmixed:"))
+                qaggs = [a for a in mq.get("aggs", "").split(",") if a]
+                if mq.get("kind") == "stats" and qaggs and all(a in dcnum for a in qaggs):
+                    fails.append(("e2e/layout-differs/dc-over-numbers-and-numeric-text", "query %s (%s): the two layouts of the same events give different distinct counts" % (q, ",".join(qaggs))))
+                    continue
             fails.append((cls_sig("layout-differs", cls), "query %s: the two layouts of the same events give different answers" % q))
     if len(isegs) != len(msegs):
         return [("e2e/protocol/segment-count", "impl %d segments, model %d" % (len(isegs), len(msegs)))]
@@ -752,12 +760,33 @@ def compare(impl, model):
             er, gr = rows(mb.get("rows", "")), rows(ia.get("rows", ""))
             aggs = [a for a in mb.get("aggs", "").split(",") if a]
             # an aggregate over no numeric input is undefined: whatever the engine prints is accepted
+            # dc(f) over a column in which the matched events hold numeric text AND JSON numbers (label grant:dcmixed:<f> of
+            # the specification): recorded class e2e/stats/dc-over-numbers-and-numeric-text — the statement does not say whether
+            # 5 and "5" are one value, and the distinct count of such a column depends on the path (a numeric string that
+            # shares a block column with numbers is stored as a number: its records hand the statistics another key than the
+            # ingest-time statistics saw).  Only that aggregate is attributed to the class, and only an answer between 1 and
+            # three times the expected count (a value can enter the sketch under three keys: its text, a float64, an int64);
+            # the rest of the row is compared as always.  (A column of numeric text WITHOUT numbers: class
+            # dc-over-numeric-text, repaired by patch c04-16 — L_FIXED, no latitude.)
+            dcnum = set("dc." + c[len("grant:dcmixed:"):] for c in cls.split(",") if c.startswith("grant:dcmixed:"))
+            dcnum_hit = []
             for k in list(er):
                 if k in gr:
                     ev_, gv_ = er[k].split(";"), gr[k].split(";")
                     if len(ev_) == len(gv_):
                         names = aggs if len(aggs) == len(ev_) else ["sum"] * len(ev_)
-                        gr[k] = ";".join(e if agg_ok(a, e, g) else g for a, e, g in zip(names, ev_, gv_))
+                        cells = []
+                        for a, e, g in zip(names, ev_, gv_):
+                            if agg_ok(a, e, g):
+                                cells.append(e)
+                            elif a in dcnum and e.isdigit() and g.isdigit() and 1 <= int(g) <= 3 * int(e):
+                                dcnum_hit.append((a, g, e))
+                                cells.append(e)
+                            else:
+                                cells.append(g)
+                        gr[k] = ";".join(cells)
+            if dcnum_hit:
+                fails.append(("e2e/stats/dc-over-numbers-and-numeric-text", "query %d: (aggregate, got, expected distinct key texts) %s" % (qi, dcnum_hit[:4])))
             # events lacking a by-field: the statement does not say whether they form a group; an extra
             # group with the empty key is accepted
             if "grant:empty-by-key" in cls.split(","):
